@@ -3,6 +3,7 @@ package checks
 import (
 	"bytes"
 	"fmt"
+	"math/big"
 	"strings"
 
 	"github.com/amzn/ion-go/ion"
@@ -164,7 +165,39 @@ func c07Body(c *mc.Ctx) {
 	var data []byte
 	var what string
 	binary := false
-	switch c.Pick("source", 5) {
+	switch c.Pick("source", 6) {
+	case 5: // values beyond 64 KiB (read in chunks) cut short at chosen offsets, at top level and in a list
+		kind := c.Shard("large-kind", 4)
+		n := []int{65536, 65537, 70000}[c.Pick("large-len", 3)]
+		body := make([]byte, n)
+		for i := range body {
+			body[i] = 'a' + byte(i%23)
+		}
+		var v *rm.Value
+		switch kind {
+		case 0:
+			v = rm.BlobV(body)
+		case 1:
+			v = rm.ClobV(body)
+		case 2:
+			v = rm.StrV(string(body))
+		default:
+			v = rm.BigV(new(big.Int).SetBytes(body))
+		}
+		vals := []*rm.Value{v}
+		if c.Pick("in-list", 2) == 1 {
+			vals = []*rm.Value{rm.ListV(v, rm.IntV(7))}
+		}
+		src := refbin.EncodeStream(rm.Canon{}, vals)
+		offs := []int{5, 6, 9, 10, 100, 4096, 65535, 65536, 65537, 65540, 65545, n, len(src) - 2, len(src) - 1}
+		at := offs[c.Pick("truncate-at", len(offs))]
+		if at >= len(src) {
+			c.Skip("offset beyond the document")
+			return
+		}
+		binary = true
+		data = src[:at]
+		what = fmt.Sprintf("large value truncate@%d of %d", at, len(src))
 	case 4: // every escape form at its boundary values in every context that takes escapes
 		e := c07Escapes[c.Shard("escape", len(c07Escapes))]
 		ctx := c07EscapeContexts[c.Pick("context", len(c07EscapeContexts))]
@@ -335,7 +368,7 @@ func init() {
 	mc.Register(&mc.Check{
 		ID:    "C07",
 		Title: "Malformed input ends in an error, and the error is permanent",
-		Rule: "(a) a hand catalogue of ~200 spec-invalid text inputs (unterminated strings/comments/containers/lobs, illegal escapes incl. unpaired surrogates, bad digit grouping, leading zeros, misplaced commas, dangling annotations and field names, keywords as names, operators outside sexps, bad base64, impossible calendar fields/offsets, control characters, junk after keywords, '_' in exponents, operators as annotations, grammar violations inside the ignored parts of a symbol table) bare and inside a list, and ~90 spec-invalid binary bodies (bool/float/negative-zero/reserved tags, annotation-wrapper shapes, sorted struct forms, overruns, non-UTF-8, impossible timestamps, unterminated VarUInts) at top level, inside a list and before another value; " +
+		Rule: "(a) a hand catalogue of ~200 spec-invalid text inputs (unterminated strings/comments/containers/lobs, illegal escapes incl. unpaired surrogates, bad digit grouping, leading zeros, misplaced commas, dangling annotations and field names, keywords as names, operators outside sexps, bad base64, impossible calendar fields/offsets, control characters, junk after keywords, '_' in exponents, operators as annotations, grammar violations inside the ignored parts of a symbol table) bare and inside a list, and ~90 spec-invalid binary bodies (bool/float/negative-zero/reserved tags, annotation-wrapper shapes, sorted struct forms, overruns, non-UTF-8, impossible timestamps, unterminated VarUInts) at top level, inside a list and before another value; blobs, clobs, strings and integers of 65536 / 65537 / 70000 bytes (the binary reader reads these in chunks) cut short at 14 offsets, at top level and inside a list; " +
 			"(b) every valid document of a seed corpus (token-class representatives bare / annotated in structs / nested, shapes, timestamps of each precision) in canonical text and binary x EVERY truncation offset, EVERY single-byte deletion and duplication, every insertion of 24 grammar-significant characters at every text position, and 11 byte substitutions at every binary position. " +
 			"An edited input counts only if the independent reference parser/decoder rejects it; then a traversal that enters every container and reads every scalar must end with Err()!=nil, five further Next calls return false and Err() stays the identical error. Edits that yield a valid document are compared value-by-value with the reference instead. " +
 			"non-trivial = reference rejected, reader rejected and stayed rejected; distinct = distinct (edit class, outcome) digests",
